@@ -22,7 +22,7 @@ from __future__ import annotations
 
 import ast
 
-from ..model import Program, dotted, TENSOR_CLASSES, AnalysisError
+from ..model import Program, dotted, TENSOR_CLASSES, AnalysisError, kwarg
 from ..report import Result
 from . import eo_common as E
 
@@ -69,6 +69,31 @@ def check(prog: Program, res: Result, tier: str) -> None:
     from . import ix_common as I
     I.ix_rules(prog, res, sel, ("IX-dom", "IX-seq", "IX-pair"))
     _matricise_roles(prog, res)
+    _spmatrix_shape(prog, res)
+
+
+def _spmatrix_shape(prog: Program, res: Result) -> None:
+    """sptensor.spmatrix: every scipy matrix it builds is given the tensor's shape (without it scipy infers the size from the largest stored
+    subscript, and trailing empty rows / columns of the tensor disappear)."""
+    fi = prog.func("sptensor.sptensor.spmatrix")
+    me = fi.params()[0]
+    calls = [c for c in ast.walk(fi.node) if isinstance(c, ast.Call) and (dotted(c.func) or "").split(".")[-1] in
+             ("coo_matrix", "csr_matrix", "csc_matrix", "coo_array", "csr_array", "csc_array")]
+    desc = "the scipy matrix is built with the tensor's shape"
+    if not calls:
+        res.undecided("REP", fi.short, desc, prog.loc(fi), "no scipy sparse constructor found")
+    for c in calls:
+        shape_arg = kwarg(c, "shape")
+        if shape_arg is None and len(c.args) >= 2:
+            shape_arg = c.args[1]
+        if shape_arg is None and len(c.args) == 1 and fi.rtext(c.args[0]).replace(" ", "") in (f"{me}.shape", f"tuple({me}.shape)"):
+            shape_arg = c.args[0]          # coo_matrix(shape): an empty matrix of that shape
+        if shape_arg is not None and f"{me}.shape" in fi.rtext(shape_arg):
+            res.ok("REP", fi.short, desc + f": {ast.unparse(c)[:50]}", prog.loc(fi, c))
+        else:
+            res.bad("REP", fi.short, desc + f": {ast.unparse(c)[:50]}", prog.loc(fi, c),
+                    "no shape is passed: scipy sizes the matrix by the largest stored subscript, so a tensor whose last rows / columns hold no "
+                    "entry converts to a smaller matrix (and every consumer of the unfolding, e.g. nvecs, returns too few rows)")
 
 
 def _matricise_roles(prog: Program, res: Result) -> None:
